@@ -284,6 +284,19 @@ func c46(c *Ctx) {
 				return in == outerAdv || isReturn(in)
 			}}, nil)
 		}
+		c.Expect(c.NoEarlyExit(f, ParamV("vHosts"), "every-virtual-host-visited")+c.NoEarlyExit(f, FieldLoad(c.field(xdsrsrc, "VirtualHost", "Domains")), "every-domain-visited") == 2, site, f, "both-walks-complete", "the virtual-host / domain walks were not both found")
+		// a domain is passed over only for one of the three documented reasons
+		if innerAdv != nil {
+			c.MustPass("domain-skipped-only-if-worse-or-not-matching", pathQuery{Fn: f, Starts: []ssa.Instruction{mc}, Barrier: func(in ssa.Instruction) bool { return in == site }, Target: func(in ssa.Instruction) bool { return in == innerAdv },
+				EdgeBlock: func(from, to *ssa.BasicBlock) bool {
+					fs := edgeFacts(from, to)
+					_, a := hasFact(fs, Truth(better, true))
+					_, b1 := hasFact(fs, Cmp(isCurT, token.EQL, typ))
+					_, b2 := hasFact(fs, Cmp(isCurL, token.GEQ, LenOf(func(v ssa.Value) bool { return v == dom })))
+					_, d := hasFact(fs, Truth(matched, false))
+					return a || (b1 && b2) || d
+				}}, mc)
+		}
 		// conversely: a matching domain of a strictly better kind, or same kind and longer, is taken
 		c.MustFact(site, "taken-only-if-matched", Truth(matched, true))
 		for _, r := range returnsOf(f) {
@@ -342,8 +355,9 @@ func c46(c *Ctx) {
 				c.Unreachable(r, "path-must-match", Truth(pm, false))
 				c.Unreachable(r, "every-header-must-match", Truth(hm, false))
 				c.Unreachable(r, "fraction-must-match", Truth(fm, false))
-			} else {
-				c.Expect(ConstBool(false)(r.Results[0]), r, f, "constant-results", "non-constant result")
+			} else if c.Expect(ConstBool(false)(r.Results[0]), r, f, "constant-results", "non-constant result") {
+				// a route is refused only because one of its matchers did not match
+				c.MustFactAny(r, "refused-only-by-a-failing-matcher", Truth(pm, false), Truth(hm, false), Truth(fm, false))
 			}
 		}
 		for _, pr := range []struct {
@@ -419,6 +433,33 @@ func c46(c *Ctx) {
 			c.Expect(len(other) == 0, r, f, "hash-source-kinds", "the hash depends on a value of a kind this check does not classify")
 		}
 		c.Expect(nHash == 1, nil, f, "one-hash-return", "expected one return of the computed hash")
+		if hashRet != nil {
+			c.Expect(DataDep(CallRes(CalleeX("github.com/cespare/xxhash/v2", "Sum64String"), 0))(hashRet.Results[0]), hashRet, f, "header-hash-reaches-the-result", "the header hash does not flow into the returned hash")
+			c.Expect(DataDep(FieldLoad(c.field(xres, "configSelector", "channelID")))(hashRet.Results[0]), hashRet, f, "channel-id-reaches-the-result", "the channel id does not flow into the returned hash")
+			c.Expect(DataDep(CallRes(CalleeX("math/bits", "RotateLeft64"), 0))(hashRet.Results[0]), hashRet, f, "policies-are-combined", "successive policy hashes are not combined (rotate-xor)")
+		}
+		// a policy that produces nothing (-bin header, header absent) moves on to the next policy
+		var padv ssa.Instruction
+		for _, b := range f.Blocks {
+			for _, in := range b.Instrs {
+				if ia, ok := in.(*ssa.IndexAddr); ok && ParamV("hashPolicies")(ia.X) {
+					if bo, ok := ia.Index.(*ssa.BinOp); ok {
+						padv = bo
+					}
+				}
+			}
+		}
+		if c.Expect(padv != nil, nil, f, "policy-walk", "walk over the hash policies not found") {
+			for _, arm := range []struct {
+				l  string
+				fm FM
+			}{{"bin-header", Truth(callArgs(CalleeX("strings", "HasSuffix"), AnyV, ConstStr("-bin")), true)}} {
+				st := edgeTargetsWhere(f, arm.fm)
+				if c.Expect(len(st) == 1, nil, f, arm.l+"-arm", "arm not found") {
+					c.MustPass(arm.l+"-policy-is-skipped-not-fatal", pathQuery{Fn: f, StartBlocks: st, Barrier: func(in ssa.Instruction) bool { return in == padv }, Target: isReturn}, nil)
+				}
+			}
+		}
 		if flag != nil && hashRet != nil {
 			c.MustFact(hashRet, "computed-hash-only-when-generated", Truth(func(v ssa.Value) bool { return v == ssa.Value(flag) }, true))
 			// every producer of a policy hash sets the flag
